@@ -13,7 +13,7 @@ Writes /verif/seeded/<id>/{patch.diff, demo.py, notes.md, meta.json}.
 import json, os, re, shutil, subprocess, sys, tempfile
 from concurrent.futures import ThreadPoolExecutor
 
-PROPS = ['C%02d' % i for i in range(1, 21) if i != 6]
+PROPS = ['C%02d' % i for i in range(1, 21)]
 BASE_COUNTS = None
 
 
